@@ -91,7 +91,7 @@ theorem SiteAt.leaf {f : Forest} {p : Nat} {v : Value} {L : List HTree} (s : Sit
     induction L with
     | nil => cases ht
     | cons k ks ih =>
-      rw [validList_cons, Bool.and_eq_true] at h1
+      rw [fs_validList_cons, Bool.and_eq_true] at h1
       cases List.mem_cons.1 ht with
       | inl e => rw [e]; exact h1.1
       | inr e => exact ih e h1.2
@@ -172,7 +172,7 @@ theorem remove_spec {f : Forest} {n : Nat} {keep : Keep} (hkeep : ∀ a b, a ≠
     have s1 : SiteAt (f.editAt (some p) (replaceTop k.handle (fun _ => []))) p v (l ++ ([] ++ r)) := by
       have := s.edit (replaceTop k.handle (fun _ => [])) (by
         rw [hgL]
-        simp only [handlesList_append, handlesList_cons]
+        simp only [fs_handlesList_append, handlesList_cons]
         exact (List.Sublist.refl _).append (List.sublist_append_right _ _))
       rw [hgL] at this
       exact this
